@@ -14,7 +14,14 @@ use robopoker::mccfr::encoder::Encoder;
 use robopoker::mccfr::info::Info;
 use robopoker::mccfr::partition::Partition;
 use robopoker::mccfr::profile::Profile;
-use robopoker::verif::{POLICY_MIN, REGRET_MAX, REGRET_MIN};
+use robopoker::verif::{CFR_DISCOUNT_PHASE, REGRET_MAX, REGRET_MIN};
+
+/// the floor of the specification (DESIGN §6 C09: eps = f32::MIN_POSITIVE = 2^-126). The oracle
+/// uses this constant, never the crate's POLICY_MIN: a changed POLICY_MIN must disagree with it.
+const POLICY_MIN: f32 = f32::MIN_POSITIVE;
+/// the exponents of the discount specification (C19), for the ledger of accumulated regret
+const ALPHA: f64 = 1.5;
+const OMEGA: f64 = 0.5;
 use rpharness::*;
 use std::collections::{BTreeMap, BTreeSet};
 use std::panic::AssertUnwindSafe;
@@ -180,10 +187,13 @@ fn main() {
     let mut rng = Rng::new(a.seed);
     let mut run = Run::new(&a.out);
     quiet_panics();
-    let cases = if a.thorough() { 400_000 } else { 30_000 };
-    let clamp_cases = if a.thorough() { 400_000 } else { 40_000 };
+    let clock = std::time::Instant::now();
+    let mut marks: Vec<String> = vec![];
+    let cases = if a.thorough() { 400_000 } else { 20_000 };
+    let clamp_cases = if a.thorough() { 400_000 } else { 20_000 };
     let tree_rounds = if a.thorough() { 40 } else { 6 };
 
+    marks.push(format!("{:.1}s information sets of really sampled trees", clock.elapsed().as_secs_f64()));
     // ---- information sets of really sampled trees, for both traversers
     let mut sites: Vec<Site> = vec![];
     let mut blueprints = vec![];
@@ -201,6 +211,7 @@ fn main() {
     let sizes: Vec<usize> = by_size.keys().cloned().collect();
     run.notes.push(format!("information sets sampled: {} (menu sizes {:?})", sites.len(), by_size.iter().map(|(k, v)| (*k, v.len())).collect::<Vec<_>>()));
 
+    marks.push(format!("{:.1}s policy_vector", clock.elapsed().as_secs_f64()));
     // ---- policy_vector
     let mut profile = Profile::default();
     for case in 0..cases {
@@ -262,13 +273,139 @@ fn main() {
         oracle(&mut run, &op, site, t, &r, &got);
     }
 
+    marks.push(format!("{:.1}s the crate's floor is the specified one", clock.elapsed().as_secs_f64()));
+    // ---- the crate's floor is the specified one
+    run.spec_checked += 1;
+    if robopoker::verif::POLICY_MIN.to_bits() != POLICY_MIN.to_bits() {
+        run.fail("policy-floor-constant-differs-from-spec", "robopoker::POLICY_MIN", &format!("{POLICY_MIN:e}"), &format!("{:e}", robopoker::verif::POLICY_MIN));
+    }
+
+    marks.push(format!("{:.1}s small positive-regret mass per epoch: st", clock.elapsed().as_secs_f64()));
+    // ---- small positive-regret mass per epoch: stored regrets 1e-6..1e-2 (mixed signs, zeros) at
+    //      epochs 1e2..1e6, so that R+/t spans 1e-12..1e-4: the strategy is still the share of the
+    //      positive part (the specified floor 2^-126 is far below)
+    {
+        let small = if a.thorough() { 40_000 } else { 3_000 };
+        let mut profile = Profile::default();
+        for k in 0..small {
+            let size = sizes[rng.below(sizes.len() as u64) as usize];
+            let pool = &by_size[&size];
+            let site = &sites[pool[rng.below(pool.len() as u64) as usize]];
+            let mut r: Vec<f32> = (0..size)
+                .map(|_| {
+                    let m = (10f64.powf(-6.0 + 4.0 * rng.unit())) as f32;
+                    match rng.below(5) { 0 => 0.0, 1 | 2 => -m, _ => m }
+                })
+                .collect();
+            if k % 3 == 0 {
+                r[0] = r[0].abs().max(1e-6); // at least one positive regret
+            }
+            let mut t = (10f64.powf(2.0 + 4.0 * rng.unit())) as usize;
+            if t % 2 != site.player {
+                t += 1;
+            }
+            for (e, x) in site.edges.iter().zip(r.iter()) {
+                profile.verif_set_memory(&site.bucket, e, *x, rng.unit() as f32);
+            }
+            profile.verif_set_epochs(t);
+            run.evaluations += 1;
+            let got = catch(AssertUnwindSafe(|| profile.policy_vector(&site.info)));
+            let bits = r.iter().map(|x| x.to_bits().to_string()).collect::<Vec<_>>().join(" ");
+            let answer = match &got {
+                None => "panic".to_string(),
+                Some(m) => m.values().map(|v| tok(*v)).collect::<Vec<_>>().join(" "),
+            };
+            let op = format!("policy32 {} {} {}", site.player, t, bits);
+            run.line(&op, &answer);
+            run.line(&format!("policyq {} {} {}", site.player, t, bits), &answer);
+            run.distinct(&(site.player, t, bits));
+            let mass: f64 = r.iter().map(|x| (*x as f64).max(0.0)).sum::<f64>() / t as f64;
+            run.count(if mass == 0.0 { "small: no positive regret" } else if mass < 1e-9 { "small: R+/t < 1e-9" } else if mass < 1e-7 { "small: R+/t in 1e-9..1e-7" } else { "small: R+/t >= 1e-7" });
+            oracle(&mut run, &format!("{op} [small positive-regret mass per epoch R+/t = {mass:e}]"), site, t, &r, &got);
+        }
+    }
+
+    marks.push(format!("{:.1}s accumulated regret = the harness's own L", clock.elapsed().as_secs_f64()));
+    // ---- accumulated regret = the harness's own LEDGER of what it fed through the real
+    //      `Profile::add_regret` over several epochs (weights of the discount specification: 1 from
+    //      CFR_DISCOUNT_PHASE on, t^a/(t^a+1) with a = 1.5 / 0.5 for an added regret > 0 / < 0 before);
+    //      the strategy must be proportional to the positive part of the LEDGER, and the stored value
+    //      read back through the hook must equal it
+    {
+        let seqs = if a.thorough() { 20_000 } else { 1_500 };
+        let mut p = Profile::default();
+        for k in 0..seqs {
+            let size = sizes[rng.below(sizes.len() as u64) as usize];
+            let pool = &by_size[&size];
+            let site = &sites[pool[rng.below(pool.len() as u64) as usize]];
+            let n = site.edges.len();
+            for e in site.edges.iter() {
+                p.verif_set_memory(&site.bucket, e, 0.0, 1.0 / n as f32); // what `witness` stores
+            }
+            let discounted = k % 4 == 0;
+            let t0 = if discounted { 1 + rng.below(CFR_DISCOUNT_PHASE as u64 - 10) as usize } else { CFR_DISCOUNT_PHASE + rng.below(100_000) as usize };
+            p.verif_set_epochs(t0);
+            let updates = 2 + rng.below(5) as usize;
+            let mut ledger = vec![0f64; n];
+            // inside the discount phase every action keeps one sign (no cancellation of inexact factors)
+            let sign: Vec<f32> = (0..n).map(|_| if rng.chance(1, 2) { 1.0 } else { -1.0 }).collect();
+            let mut fed: Vec<Vec<f32>> = vec![];
+            for _ in 0..updates {
+                let t = p.epochs();
+                let v: Vec<f32> = (0..n)
+                    .map(|i| {
+                        let q = rng.range(0, 80) as f32 * 0.25;
+                        if discounted { q * sign[i] } else if rng.chance(1, 2) { q } else { -q }
+                    })
+                    .collect();
+                for i in 0..n {
+                    let x = v[i] as f64;
+                    let d = if t >= CFR_DISCOUNT_PHASE || x == 0.0 { 1.0 } else { let y = (t as f64).powf(if x > 0.0 { ALPHA } else { OMEGA }); y / (y + 1.0) };
+                    ledger[i] = ledger[i] * d + x;
+                }
+                let m: BTreeMap<Edge, f32> = site.edges.iter().cloned().zip(v.iter().cloned()).collect();
+                p.add_regret(&site.bucket, &robopoker::mccfr::regret::Regret::from(m));
+                p.next();
+                fed.push(v);
+            }
+            if p.epochs() % 2 != site.player {
+                p.next();
+            }
+            let t = p.epochs();
+            let r: Vec<f32> = ledger.iter().map(|x| *x as f32).collect();
+            let stored: Vec<f32> = site.edges.iter().map(|e| p.verif_memory(&site.bucket, e).unwrap().0).collect();
+            let got = catch(AssertUnwindSafe(|| p.policy_vector(&site.info)));
+            run.evaluations += 1;
+            let bits = r.iter().map(|x| x.to_bits().to_string()).collect::<Vec<_>>().join(" ");
+            let answer = match &got {
+                None => "panic".to_string(),
+                Some(m) => m.values().map(|v| tok(*v)).collect::<Vec<_>>().join(" "),
+            };
+            let op = format!("policy32 {} {} {}", site.player, t, bits);
+            run.line(&op, &answer);
+            run.line(&format!("policyq {} {} {}", site.player, t, bits), &answer);
+            run.distinct(&(site.player, t, bits));
+            run.count(if discounted { "ledger: updates inside the discount phase" } else { "ledger: updates after the discount phase" });
+            let what = format!("{op} [accumulated regret = ledger of {updates} add_regret updates from epoch {t0}: {fed:?}]");
+            run.spec_checked += 1;
+            for i in 0..n {
+                if (stored[i] as f64 - ledger[i]).abs() > 1e-5 * ledger[i].abs() + 1e-6 {
+                    run.fail("accumulated-regret-differs-from-ledger", &what, &format!("action {i}: {:e}", ledger[i]), &format!("{:e}", stored[i]));
+                    break;
+                }
+            }
+            oracle(&mut run, &what, site, t, &r, &got);
+        }
+    }
+
+    marks.push(format!("{:.1}s profile states that real training epochs", clock.elapsed().as_secs_f64()));
     // ---- profile states that real training epochs produce: the loop of `Blueprint::solve`
     //      restated with the public calls (tree -> partition -> regret_vector + policy_vector ->
     //      add_regret + add_policy -> next), every information set checked on the way; then the
     //      counter is reset to 0 with the stored values kept (what `Profile::load` yields).
     {
-        let epochs = if a.thorough() { 400 } else { 24 };
-        let batch = 4;
+        let epochs = if a.thorough() { 400 } else { 12 };
+        let batch = if a.thorough() { 4 } else { 3 };
         let bp = Blueprint::verif_new(Profile::default(), Encoder::default());
         let arc = bp.verif_profile();
         let mut visited = 0u64;
@@ -328,6 +465,7 @@ fn main() {
             }
             p.next();
         }
+        marks.push(format!("{:.1}s ask / update / ask again inside ONE epoc", clock.elapsed().as_secs_f64()));
         // ---- ask / update / ask again inside ONE epoch, then next() twice, ask again: the entry
         //      point the trainer uses (`Profile::counterfactual`) must answer from the regrets stored
         //      NOW, whatever was asked before (half of the sequences run on a fresh thread)
@@ -397,6 +535,7 @@ fn main() {
             }
         }
 
+        marks.push(format!("{:.1}s real update sequences that leave NO posi", clock.elapsed().as_secs_f64()));
         // ---- real update sequences that leave NO positive regret beside a skewed stored average
         //      strategy (add_regret / add_policy in both orders, then an all-non-positive or exactly
         //      cancelling add_regret): the matched strategy must be uniform whatever the policy column says
@@ -448,6 +587,7 @@ fn main() {
             }
         }
 
+        marks.push(format!("{:.1}s save -> file cut short (as an interrupte", clock.elapsed().as_secs_f64()));
         // ---- save -> file cut short (as an interrupted save leaves it) -> load -> resume.
         //      Either load refuses the file, or every loaded bucket has its whole menu and
         //      computing strategies on it never aborts.
@@ -472,7 +612,7 @@ fn main() {
                 e.1 += 1;
             }
             let mut cuts: Vec<(usize, String)> = vec![(bytes.len(), "complete file".to_string())];
-            let want = if a.thorough() { 60 } else { 10 };
+            let want = if a.thorough() { 60 } else { 6 };
             let mut targets: Vec<&Site> = p0_sites.iter().filter(|s| s.edges.len() >= 2).collect();
             for _ in 0..want.min(targets.len()) {
                 let site = targets.swap_remove(rng.below(targets.len() as u64) as usize);
@@ -591,14 +731,15 @@ fn main() {
         run.notes.push(format!("training-produced states: {epochs} real epochs x {batch} trees, then counter reset to 0 as by Profile::load; {visited} information-set visits checked"));
     }
 
+    marks.push(format!("{:.1}s late epochs (around and far beyond the p", clock.elapsed().as_secs_f64()));
     // ---- late epochs (around and far beyond the pruning phase) with hopelessly negative stored
     //      regrets on one / several / all-but-one / all actions; the trees are sampled AFTER the
     //      values are in place, through the real sampler: strategy and recorded regrets must still
     //      cover exactly the menu of every traverser information set
     {
         use robopoker::verif::CFR_PRUNNING_PHASE;
-        let presample = if a.thorough() { [600usize, 150] } else { [200usize, 40] };
-        let after = if a.thorough() { 40 } else { 8 };
+        let presample = if a.thorough() { [600usize, 150] } else { [140usize, 24] };
+        let after = if a.thorough() { 40 } else { 6 };
         let lows = [REGRET_MIN, -1e6f32, f32::from_bits((-3e8f32).to_bits() + 1), -1e9, -1e30, f32::MIN];
         let bp = Blueprint::verif_new(Profile::default(), Encoder::default());
         let arc = bp.verif_profile();
@@ -686,6 +827,7 @@ fn main() {
         run.notes.push(format!("late-epoch states: {touched} witnessed buckets given stored regrets in {{-3e5, -1e6, -3e8-eps, -1e9, -1e30, f32::MIN}} on 1 / several / all-but-one / all actions; trees sampled afterwards at 10 epoch counters around CFR_PRUNNING_PHASE = {CFR_PRUNNING_PHASE} and far beyond (both parities); {checked} information sets checked against their menu"));
     }
 
+    marks.push(format!("{:.1}s regret_vector on the sampled trees, stor", clock.elapsed().as_secs_f64()));
     // ---- regret_vector on the sampled trees, stored strategies made extreme
     for bp in &blueprints {
         let arc = bp.verif_profile();
@@ -733,6 +875,7 @@ fn main() {
         }
     }
 
+    marks.push(format!("{:.1}s the clamp expression of regret_vector on", clock.elapsed().as_secs_f64()));
     // ---- the clamp expression of regret_vector on arbitrary bit patterns (the expression is
     //      restated here with the crate's own constants: it ties the constants, their order and
     //      the NaN rule of f32::max/min to the model, not the call site)
@@ -755,6 +898,7 @@ fn main() {
         run.count(if x.is_nan() { "clamp:nan" } else if x.is_infinite() { "clamp:inf" } else if x < REGRET_MIN { "clamp:below" } else { "clamp:inside" });
     }
 
+    marks.push(format!("{:.1}s walker", clock.elapsed().as_secs_f64()));
     // ---- walker
     let mut p = Profile::default();
     let mut ts: Vec<usize> = (0..64).collect();
@@ -775,6 +919,8 @@ fn main() {
         }
     }
 
+    marks.push(format!("{:.1}s end", clock.elapsed().as_secs_f64()));
+    run.notes.push(format!("section start times: {}", marks.join("; ")));
     run.rule = format!(
         "{cases} policy_vector cases on information sets of really sampled trees (both traversers, every menu size the sampler offers), \
          regret vectors of 11 kinds (zeros, all negative, mixed signs over the whole f32 exponent range, one positive, equal, denormals, \
@@ -782,7 +928,7 @@ fn main() {
          {{0,1,2,small,<2^20,<2^40,2^k,usize::MAX-k}} with parity chosen to match the node's player (1/25 deliberately mismatched: must abort), \
          1/60 with a stored NaN/inf (correspondence only); regret_vector on every information set of {tree_rounds} more trees per traverser with \
          the stored average strategy left as is / randomised / made extreme; {clamp_cases} random bit patterns through the clamp expression; \
-         walker at 2064 counters; plus every information set visited during real training epochs (4 trees per epoch) and after a simulated load; Profile::counterfactual in ask / change regrets / ask again (same epoch) / next x2 / ask sequences, half on fresh threads; real add_regret/add_policy sequences (both orders) ending with no positive regret beside a skewed stored average strategy; the stored policy column of every synthetic case varies independently of the regrets; save -> blueprint cut at row boundaries inside a bucket, inside rows, at bucket boundaries, without trailer -> load -> menu completeness, policy_vector at the known information sets, two resumed epochs. late-epoch states: hopelessly negative stored regrets (down to f32::MIN) on subsets of the actions of witnessed buckets, trees sampled afterwards at counters around and beyond CFR_PRUNNING_PHASE, keys compared with the menu of the bucket (not with the children of the sampled node). A policy case is non-trivial always (>= 2 actions or a checked singleton); distinct by (player, t, regret bits)"
+         walker at 2064 counters; plus every information set visited during real training epochs (4 trees per epoch) and after a simulated load; Profile::counterfactual in ask / change regrets / ask again (same epoch) / next x2 / ask sequences, half on fresh threads; real add_regret/add_policy sequences (both orders) ending with no positive regret beside a skewed stored average strategy; the stored policy column of every synthetic case varies independently of the regrets; save -> blueprint cut at row boundaries inside a bucket, inside rows, at bucket boundaries, without trailer -> load -> menu completeness, policy_vector at the known information sets, two resumed epochs. small-magnitude states (regrets 1e-6..1e-2 at epochs 1e2..1e6) judged with the specified floor 2^-126 (never the crate's constant); accumulated regret taken from the harness's own ledger of real add_regret updates over 2-6 epochs (inside and after the discount phase); late-epoch states: hopelessly negative stored regrets (down to f32::MIN) on subsets of the actions of witnessed buckets, trees sampled afterwards at counters around and beyond CFR_PRUNNING_PHASE, keys compared with the menu of the bucket (not with the children of the sampled node). A policy case is non-trivial always (>= 2 actions or a checked singleton); distinct by (player, t, regret bits)"
     );
     run.finish();
 }
